@@ -526,7 +526,15 @@ func markerProp(t *rapid.T) {
 // hides V.postN from "!=V"; packaging says V.postN != V is true.
 var notEqualPostAtom = regexp.MustCompile(`!=\s*['"][^'"]*\.post[0-9]*['"]|['"][^'"]*\.post[0-9]*['"]\s*!=`)
 
+// CompatibleReleaseVPrefix: packaging evaluates X ~= "v3.8" to false for every
+// X: the specifier is accepted, but the prefix match it expands to ("== v3.*")
+// compares the text "v3" with the number 3. The library reads v3.8 as 3.8.
+var compatibleVPrefixAtom = regexp.MustCompile(`~=\s*['"]\s*[vV][0-9]|['"]\s*[vV][0-9][^'"]*['"]\s*~=`)
+
 func knownMarkerClass(mk string, extras []string) string {
+	if compatibleVPrefixAtom.MatchString(mk) && kf.Open("C16", "CompatibleReleaseVPrefix") {
+		return "CompatibleReleaseVPrefix"
+	}
 	if notEqualPostAtom.MatchString(mk) && kf.Open("C16", "NotEqualPostRelease") {
 		return "NotEqualPostRelease"
 	}
